@@ -109,6 +109,14 @@ func (p *Path) CallFn(fn *ssa.Function, args []Value, free []Value) Value {
 		p.unsupported("call depth exceeded in %s", fi.name)
 	}
 	p.stack = append(p.stack, fi.name)
+	if p.funcs == nil {
+		p.funcs = map[string]int{}
+	}
+	if strings.HasPrefix(fi.name, "github.com/pojntfx/stfs/") || strings.HasPrefix(fi.name, "(*github.com/pojntfx/stfs/") || strings.HasPrefix(fi.name, "(github.com/pojntfx/stfs/") {
+		if !strings.Contains(fi.name, "verifmodel") && !strings.Contains(fi.name, "Harness_") {
+			p.funcs[fi.name]++
+		}
+	}
 	fr := &frame{fn: fn, locals: make(map[ssa.Value]Value, 32)}
 	for i, prm := range fn.Params {
 		if i < len(args) {
@@ -210,7 +218,7 @@ func (p *Path) run(fr *frame) Value {
 						fr.symLoops = map[*ssa.BasicBlock]int{}
 					}
 					fr.symLoops[fr.block]++
-					if fr.symLoops[fr.block] > p.E.Unwind {
+					if fr.symLoops[fr.block] > p.unwindBound() {
 						panic(&abortPath{Kind: "unwind", Msg: fmt.Sprintf("unwinding bound %d exceeded in %s block %d", p.E.Unwind, fr.fn.String(), fr.block.Index)})
 					}
 					taken = p.Branch(c)
